@@ -13,7 +13,7 @@ for l in open(sys.argv[1]):
     try: e=json.loads(l)
     except Exception: continue
     t=e.get('Test')
-    if not t or '/' in t: continue
+    if not t: continue
     if e.get('Action') in ('pass','fail','skip'):
         res[e['Package']+'::'+t]=e['Action']
 stable=json.load(open('/root/.vp/BASELINE.json'))['stable_pass']
